@@ -226,41 +226,43 @@ structure Skeleton where
 
 def barrierLine : String := "#pragma omp barrier"
 
-/-- position of the barrier: directly inside the task loop (depth of the row loop), after the row loop -/
+/-- position of the barrier: inside the task loop, after the row loop (at the depth of the row loop header) -/
 def Skeleton.levelBarrier (sk : Skeleton) : Bool :=
   match sk.run with
-  | [(0, "#pragma omp parallel"), (1, _), (2, _), (3, _), (3, _), (2, b)] => b == barrierLine
+  | [(0, "#pragma omp parallel"), (1, _), (2, _), (3, _), (2, b)] => b == barrierLine
   | _ => false
+
+/-- canonical text (`tools/sync_skeleton.py: norm`): blanks survive only between two identifier characters -/
+def expectedChunking : List (Nat × String) :=
+  [(0, "#pragma omp parallel"),
+   (1, "for(ptrdiff_t lev=0;lev<nlev;++lev)"),
+   (2, "ptrdiff_t lev_size=start[lev+1]-start[lev];"),
+   (2, "ptrdiff_t chunk_size=(lev_size+nthreads-1)/nthreads;"),
+   (2, "ptrdiff_t beg=std::min(tid*chunk_size,lev_size);"),
+   (2, "ptrdiff_t end=std::min(beg+chunk_size,lev_size);"),
+   (2, "beg+=start[lev];"),
+   (2, "end+=start[lev];"),
+   (2, "tasks[tid].push_back(task(beg,end));")]
 
 def gsExpectedSkeleton : Skeleton where
   run := [(0, "#pragma omp parallel"),
-          (1, "for(const task &t : tasks[tid])"),
-          (2, "for(ptrdiff_t r = t.beg; r < t.end; ++r)"),
-          (3, "for(ptrdiff_t j = beg; j < end; ++j)"),
-          (3, "x[i] = math::inverse(D) * X;"),
+          (1, "for(const task&t:tasks[tid])"),
+          (2, "for(ptrdiff_t r=t.beg;r<t.end;++r)"),
+          (3, "x[i]=math::inverse(D)*X;"),
           (2, "#pragma omp barrier")]
-  serialPred := "is_serial(prm.serial || num_threads() < 4)"
+  serialPred := "is_serial(prm.serial||num_threads()<4)"
   nthreads := "nthreads(num_threads())"
-  chunking := [(0, "#pragma omp parallel"),
-               (1, "for(ptrdiff_t lev = 0; lev < nlev; ++lev)"),
-               (2, "ptrdiff_t lev_size = start[lev+1] - start[lev];"),
-               (2, "ptrdiff_t chunk_size = (lev_size + nthreads - 1) / nthreads;"),
-               (2, "ptrdiff_t beg = std::min(tid * chunk_size, lev_size);"),
-               (2, "ptrdiff_t end = std::min(beg + chunk_size, lev_size);"),
-               (2, "beg += start[lev];"),
-               (2, "end += start[lev];"),
-               (2, "tasks[tid].push_back(task(beg, end));")]
+  chunking := expectedChunking
 
 def iluExpectedSkeleton : Skeleton where
   run := [(0, "#pragma omp parallel"),
-          (1, "for(const task &t : tasks[tid])"),
-          (2, "for(ptrdiff_t r = t.beg; r < t.end; ++r)"),
-          (3, "for(ptrdiff_t j = beg; j < end; ++j)"),
-          (3, "if (lower) x[i] -= X; else x[i] = D[tid][r] * (x[i] - X);"),
+          (1, "for(const task&t:tasks[tid])"),
+          (2, "for(ptrdiff_t r=t.beg;r<t.end;++r)"),
+          (3, "if(lower)x[i]-=X;else x[i]=D[tid][r]*(x[i]-X);"),
           (2, "#pragma omp barrier")]
-  serialPred := "serial(num_threads() < 4)"
+  serialPred := "serial(num_threads()<4)"
   nthreads := "nthreads(num_threads())"
-  chunking := gsExpectedSkeleton.chunking
+  chunking := expectedChunking
 
 /-- with the barrier: one interleaving per level, the levels one after the other -/
 inductive LevelwiseExec (tk : List (List (List Nat))) : List Nat → List Nat → Prop
@@ -313,4 +315,41 @@ def iluParallelHalf (lower : Bool) (A : CRS K) (D : Vec K) (σ : List Nat) (x : 
 
 end kernels
 
+end Amgcl.Sched
+
+namespace Amgcl.Sched
+
+/-- thread order inside every level (= `order`): adversarial for the backward sweep -/
+def threadOrderSchedule (tk : List (List (List Nat))) (nlev : Nat) : List Nat :=
+  (List.range nlev).flatMap fun lev => (levelTasks tk lev).flatten
+
+/-- executable form of "the levels agree with the serial order on every dependency":
+for every stored off-diagonal entry `(i,c)`: `c` visited before `i` ↔ `level c < level i`, and never equal -/
+def conflictFree (fwd : Bool) (A : Pattern) (level : Array Nat) : Bool :=
+  (List.range A.size).all fun i => (A.getD i []).all fun c =>
+    c == i || (level.getD c 0 != level.getD i 0 && (before fwd c i == decide (level.getD c 0 < level.getD i 0)))
+
+/-! ## 7. Gershgorin bound under `omp for` + `omp critical` (builtin.hpp:794-819) -/
+section gersh
+variable {K : Type} [Add K] [Mul K] [Zero K] [One K] [Div K] [LT K] [DecidableLT K]
+
+/-- `std::max(a, b)` -/
+def cmax (a b : K) : K := if a < b then b else a
+
+/-- one thread: `emax = 0; dia = identity;` then its rows `lo..hi-1` in order (`dia` is *not* reset per row) -/
+def gershThread (scale : Bool) (norm : K → K) (A : CRS K) (lo hi : Nat) : K :=
+  ((List.range (hi - lo)).foldl (fun (st : K × K) k =>
+      let i := lo + k
+      let sd := (A.row i).foldl (fun (sd : K × K) cv =>
+        (sd.1 + norm cv.2, if scale && cv.1 == i then cv.2 else sd.2)) (0, st.2)
+      let s := if scale then sd.1 * norm (1 / sd.2) else sd.1
+      (cmax st.1 s, sd.2)) (0, 1)).1
+
+/-- `radius = 0;` every thread of the team: `#pragma omp critical  radius = max(radius, emax)` (thread order) -/
+def gershgorin (scale : Bool) (norm : K → K) (nt : Nat) (A : CRS K) : K :=
+  (List.range nt).foldl (fun radius t =>
+    let ch := staticChunk A.nrows nt t
+    cmax radius (gershThread scale norm A ch.1 ch.2)) 0
+
+end gersh
 end Amgcl.Sched
